@@ -3,6 +3,8 @@
     auth <vector>     vector: string over o (source returns), a (raises exception A), b (raises exception B);
                       "-" = no sources.  Source i is called `i`; a successful source i returns the value i.
   Reply:  ret|fail  <i>:<o|a|b> …  | calls <i> … | pulled <i> …
+    authsrc <id,id,…> <vector>    source list given by object identities (repeats allowed); the k-th call yields vector[k]
+  Reply:  ret|fail <id>:<o|a|b> … | calls <id> …
     session <vector>/<vector>/…   several authenticate() calls on ONE strategy object (heap model)
   Reply:  <id>:ret|fail … (one per call) || <contents of every AuthResult object at the end, in identity order>
 -/
@@ -37,6 +39,16 @@ def step (line : String) : String :=
         | .authFailure r => "fail " ++ showPairs r
       head ++ " | calls " ++ showNats l.calls ++ " | pulled " ++ showNats l.pulled
     | none => "bad-op"
+  | ["authsrc", ids, v] =>
+    match (ids.splitOn ",").mapM String.toNat?, parseVec v with
+    | some srcs, some os =>
+      if srcs.length != os.length then "bad-op" else
+      let l := loop (scripted 'x') srcs (init os)
+      let head := match finish l with
+        | .returned r => "ret " ++ showPairs r
+        | .authFailure r => "fail " ++ showPairs r
+      head ++ " | calls " ++ showNats l.calls
+    | _, _ => "bad-op"
   | ["session", vs] =>
     match (vs.splitOn "/").mapM parseVec with
     | some calls =>
